@@ -21,6 +21,7 @@ import (
 	"math/rand"
 	"net/http"
 	"net/url"
+	"sort"
 	"strconv"
 	"strings"
 	"sync"
@@ -42,6 +43,7 @@ const (
 	nProxy    = 4
 	nHist     = 4
 	nHistRace = 2
+	nSink     = 2
 )
 
 func main() {
@@ -71,6 +73,9 @@ func main() {
 			}
 			for i := 0; i < nHist; i++ {
 				bs = append(bs, vh.Batch{Name: fmt.Sprintf("hist-%d", i), TimeoutS: 1500})
+			}
+			for i := 0; i < nSink; i++ {
+				bs = append(bs, vh.Batch{Name: fmt.Sprintf("sink-%d", i), TimeoutS: 1500})
 			}
 			for i := 0; i < nHistRace; i++ {
 				bs = append(bs, vh.Batch{Name: fmt.Sprintf("hist-race-%d", i), Race: true, TimeoutS: 1500})
@@ -1289,6 +1294,216 @@ func runHist(r *vh.Run, k int, race bool) {
 }
 
 // ---------------------------------------------------------------------------
+// failing-sink driver: the log sink of the marbl stream fails some writes
+
+var errSink = errors.New("harness: log sink write failed")
+
+// flakySink fails the Write calls whose ordinal is in failAt (returning 0 or
+// half of the bytes) and accepts all others.
+type flakySink struct {
+	mu       sync.Mutex
+	calls    int
+	failAt   map[int]bool
+	failures int
+	accepted int64
+}
+
+func (f *flakySink) Write(p []byte) (int, error) {
+	f.mu.Lock()
+	defer f.mu.Unlock()
+	f.calls++
+	if f.failAt[f.calls] {
+		f.failures++
+		if f.calls%2 == 0 {
+			return len(p) / 2, errSink
+		}
+		return 0, errSink
+	}
+	f.accepted += int64(len(p))
+	return len(p), nil
+}
+
+func (f *flakySink) activity() string {
+	f.mu.Lock()
+	defer f.mu.Unlock()
+	return fmt.Sprintf("sink calls=%d failures=%d", f.calls, f.failures)
+}
+
+// awaitCall runs fn and waits for it; whether it will ever return is decided
+// by quiescence (vh.Await), never by a deadline.
+func awaitCall(fn func(), activity func() string) (vh.Outcome, string) {
+	done := make(chan struct{})
+	go func() {
+		defer close(done)
+		fn()
+	}()
+	select {
+	case <-done:
+		return vh.Happened, ""
+	case <-time.After(2 * time.Second): // only selects the slow path
+	}
+	return vh.Await(func() bool {
+		select {
+		case <-done:
+			return true
+		default:
+			return false
+		}
+	}, vh.AwaitOpts{Activity: activity})
+}
+
+type sinkCase struct {
+	Kind   string `json:"kind"` // c15s
+	Stream string `json:"stream"`
+	Idx    int    `json:"idx"`
+}
+
+// sinkHistory sends 3..8 exchanges through a marbl.Modifier whose sink fails
+// 1..3 of its writes. Logging is best effort, forwarding is not: every message
+// must still be handed on, unchanged.
+func sinkHistory(r *vh.Run, c sinkCase) (stuck bool) {
+	rng := r.Rng(c.Stream, c.Idx)
+	K := 3 + rng.Intn(6)
+	sink := &flakySink{failAt: map[int]bool{}}
+	for i, n := 0, 1+rng.Intn(3); i < n; i++ {
+		sink.failAt[1+rng.Intn(40)] = true
+	}
+	mod := marbl.NewModifier(sink)
+	r.Eval(1)
+	o := msgx.GenOpts{Rich: true, NoBig: true, MaxSize: 5000}
+	const sig = "C15:forwarded-identical:marbl+failing-sink"
+	for j := 0; j < K; j++ {
+		o.Key = fmt.Sprintf("s%d-%d", c.Idx, j)
+		reqSpec := msgx.GenRequest(rng, o)
+		s := reqSpec
+		if rng.Intn(2) == 0 {
+			s = msgx.GenResponse(rng, o, reqSpec.Method)
+		}
+		wire := s.Wire()
+		witness := map[string]interface{}{"history_len": K, "position": j, "sink_writes_that_fail": keysInt(sink.failAt), "sink": sink.activity(), "message": msgx.Excerpt(wire, 400)}
+		inconc := func(why string) {
+			r.SetCase(c)
+			r.Inconclusive(why, witness)
+		}
+		var reqA, reqB *http.Request
+		var resA, resB *http.Response
+		var err error
+		if !s.Resp {
+			if reqA, err = http.ReadRequest(bufio.NewReader(bytes.NewReader(wire))); err != nil {
+				inconc("net/http rejected a generated request: " + err.Error())
+				return false
+			}
+			reqB, _ = http.ReadRequest(bufio.NewReader(bytes.NewReader(wire)))
+		} else {
+			reqA, reqB = stubRequest(s.Method, reqSpec.Target), stubRequest(s.Method, reqSpec.Target)
+			if resA, err = http.ReadResponse(bufio.NewReader(bytes.NewReader(wire)), reqA); err != nil {
+				inconc("net/http rejected a generated response: " + err.Error())
+				return false
+			}
+			resB, _ = http.ReadResponse(bufio.NewReader(bytes.NewReader(wire)), reqB)
+		}
+		_, remove, err := martian.TestContext(reqB, nil, nil)
+		if err != nil {
+			inconc("martian.TestContext: " + err.Error())
+			return false
+		}
+		defer remove()
+		var logErr, errA, errB error
+		var bufA, bufB bytes.Buffer
+		step := "logging"
+		out, fp := awaitCall(func() {
+			if s.Resp {
+				logErr = mod.ModifyResponse(resB)
+			} else {
+				logErr = mod.ModifyRequest(reqB)
+			}
+		}, sink.activity)
+		if out == vh.Happened {
+			step = "forwarding"
+			out, fp = awaitCall(func() {
+				if s.Resp {
+					errB = resB.Write(&bufB)
+				} else {
+					errB = reqB.Write(&bufB)
+				}
+			}, sink.activity)
+		}
+		witness["sink"] = sink.activity()
+		switch out {
+		case vh.Stuck:
+			witness["quiescent_state"] = fp
+			r.ViolationCase(c, sig, fmt.Sprintf("[message %d of %d, %d sink writes failed so far] %s the message never returns: the exchange is stuck and will not be forwarded", j, K, sink.failures, step), witness)
+			return true
+		case vh.Undecided:
+			inconc("watchdog fired while " + step + " through marbl with a failing sink")
+			return false
+		}
+		if s.Resp {
+			errA = resA.Write(&bufA)
+		} else {
+			errA = reqA.Write(&bufA)
+		}
+		if logErr != nil {
+			r.ViolationCase(c, "C15:no-error:failing-sink", "marbl.Modifier returned an error: "+logErr.Error(), witness)
+		}
+		if errA != nil {
+			inconc("serialising the unlogged twin failed: " + errA.Error())
+			return false
+		}
+		if errB != nil {
+			r.ViolationCase(c, sig, "after logging, serialising the message fails: "+errB.Error(), witness)
+			continue
+		}
+		pa, restA, ea := msgx.ParsePrefix(bufA.Bytes(), s.Resp, s.Method)
+		pb, restB, eb := msgx.ParsePrefix(bufB.Bytes(), s.Resp, s.Method)
+		if ea != nil || !bytes.Equal(pa.Body, s.WireBody()) {
+			inconc(fmt.Sprintf("harness self-check failed on the unlogged twin (%v)", ea))
+			return false
+		}
+		if eb != nil {
+			r.ViolationCase(c, sig, "the logged message does not serialise to a parseable message: "+eb.Error(), witness)
+		} else if d := cmpForwarded(pa, pb); d != "" || !bytes.Equal(restA, restB) {
+			r.ViolationCase(c, sig, "marbl with a failing sink: "+d, witness)
+		}
+		r.Count("failing_sink_bytes_compared", int64(bufA.Len()))
+	}
+	sink.mu.Lock()
+	nf := sink.failures
+	sink.mu.Unlock()
+	r.Count("sink_write_failures_injected", int64(nf))
+	if nf > 0 {
+		r.Class(fmt.Sprintf("failing-sink|marbl|K=%d|failed-writes=%d", K, nf))
+	}
+	return false
+}
+
+func keysInt(m map[int]bool) []int {
+	var ks []int
+	for k := range m {
+		ks = append(ks, k)
+	}
+	sort.Ints(ks)
+	return ks
+}
+
+func runSink(r *vh.Run, k int) {
+	total := r.Pick(200, 2000)
+	per := total / nSink
+	stuck := 0
+	for i := 0; i < per; i++ {
+		c := sinkCase{Kind: "c15s", Stream: "c15-sink", Idx: k*per + i}
+		r.Case(c)
+		if sinkHistory(r, c) {
+			// each stuck verdict costs a full quiescence window (about 9 s); a few are evidence enough
+			if stuck++; stuck >= 3 {
+				r.Count("sink_histories_not_run_after_3_stuck_verdicts", int64(per-i-1))
+				break
+			}
+		}
+	}
+}
+
+// ---------------------------------------------------------------------------
 
 func run(r *vh.Run, batch string) {
 	switch {
@@ -1298,6 +1513,9 @@ func run(r *vh.Run, batch string) {
 	case strings.HasPrefix(batch, "proxy-"):
 		k, _ := strconv.Atoi(batch[6:])
 		runProxy(r, k)
+	case strings.HasPrefix(batch, "sink-"):
+		k, _ := strconv.Atoi(batch[5:])
+		runSink(r, k)
 	case strings.HasPrefix(batch, "hist-race-"):
 		k, _ := strconv.Atoi(batch[10:])
 		runHist(r, k, true)
@@ -1317,6 +1535,10 @@ func replay(r *vh.Run, raw json.RawMessage) {
 		p := newProxyRun()
 		defer p.close()
 		p.one(r, c)
+	case c.Kind == "c15s":
+		var sc sinkCase
+		json.Unmarshal(raw, &sc)
+		sinkHistory(r, sc)
 	case c.Kind == "c15h":
 		var h histCase
 		json.Unmarshal(raw, &h)
